@@ -180,8 +180,8 @@ class CGMY(ModelSpec):
 class VGxn(VG):
     """_VGLevyMeasure.integrate_against_xn for n = 1..4 (through tools.integral)"""
     name = "VG.xn"
-    moments = {n: ("integrate_against_xn", n) for n in (1, 2, 3, 4)}
-    regions = {n: ("N", "N-inf", "N0", "P", "P-inf", "P0", "S") for n in (1, 2, 3, 4)}
+    moments = {n: ("integrate_against_xn", n) for n in (1, 2, 3, 4, 5, 6)}
+    regions = {n: ("N", "N-inf", "N0", "P", "P-inf", "P0", "S") for n in (1, 2, 3, 4, 5, 6)}
 
 
 MODELS = {m.name: m for m in (HEM(), Merton(), VG(), VGxn())}
@@ -316,10 +316,10 @@ class ClosedForm(Lemma):
 
 
 class XnExp(FunctionContract):
-    """tools.integral.integral_xn_exp_minus_x(n, a, b, alpha) = int_a^b x^n exp(-alpha |x|) dx, n = 0..4, every region"""
+    """tools.integral.integral_xn_exp_minus_x(n, a, b, alpha) = int_a^b x^n exp(-alpha |x|) dx, n = 0..6, every region"""
     prop = "C09"
     target = "rpylib.tools.integral:integral_xn_exp_minus_x"
-    cases = tuple((n, r) for n in range(0, 5) for r in ("N", "N-inf", "P", "P-inf", "S", "N0", "P0"))
+    cases = tuple((n, r) for n in range(0, 7) for r in ("N", "N-inf", "P", "P-inf", "S", "N0", "P0"))
 
     def __init__(self):
         self.name = "integral_xn_exp_minus_x"
